@@ -47,6 +47,8 @@ type caseIn struct {
 	Ups         int    `json:"ups"`
 	Downs       int    `json:"downs"`
 	CloseFirst  []int  `json:"close_first,omitempty"` // ordinals of streams closed before the connection
+	Overlap     []int  `json:"overlap,omitempty"`     // ordinals of streams closed by OverlapN overlapping Close calls (the broker withholds the first close response until all calls were issued)
+	OverlapN    int    `json:"overlap_n,omitempty"`
 	Buffered    []int  `json:"buffered,omitempty"`    // ordinals of streams with unflushed data / unacknowledged reads at Close
 	PendingRead bool   `json:"pending_read,omitempty"`
 	PendingCall bool   `json:"pending_call,omitempty"`
@@ -67,6 +69,9 @@ type resultOut struct {
 	DiscAfter     int      `json:"disc_after"`
 	ReconnAfter   int      `json:"reconn_after"`
 	SClosed       [][2]int `json:"sclosed"`
+	CloseReqs     []int    `json:"close_reqs"`
+	CloseReqMax   int      `json:"close_req_max"`
+	OverlapRets   [][]int  `json:"overlap_rets,omitempty"`
 	Leaked        int      `json:"leaked"`
 	LeakedWhere   []string `json:"leaked_where,omitempty"`
 	Panic         bool     `json:"panic"`
@@ -233,6 +238,7 @@ func runCase(c *caseIn) (res resultOut) {
 		}
 		ev(fmt.Sprintf("EStart %d %s", l, kd), fmt.Sprintf("EWake %d", l), fmt.Sprintf("EResp %d", l))
 	}
+	var closedFirst func(i int) bool
 	isIn := func(l []int, i int) bool {
 		for _, x := range l {
 			if len(streams) > 0 && x%len(streams) == i {
@@ -241,6 +247,7 @@ func runCase(c *caseIn) (res resultOut) {
 		}
 		return false
 	}
+	closedFirst = func(i int) bool { return isIn(c.CloseFirst, i) || isIn(c.Overlap, i) }
 	// buffered data: an unflushed write / a consumed chunk whose result is not yet acknowledged
 	seq := uint32(0)
 	for i, s := range streams {
@@ -280,7 +287,62 @@ func runCase(c *caseIn) (res resultOut) {
 			}
 			return s.up.Close(ctx)
 		})
-		ev(fmt.Sprintf("EStreamClose %d", s.label))
+		ev(fmt.Sprintf("EStreamClose %d", s.label), fmt.Sprintf("EStreamCloseResp %d", s.label))
+	}
+	// overlapping Close calls of one stream: the first close response is withheld until every call was issued
+	for i, s := range streams {
+		if !isIn(c.Overlap, i) || isIn(c.CloseFirst, i) {
+			continue
+		}
+		n := c.OverlapN
+		if n < 2 {
+			n = 2
+		}
+		s := s
+		closeOnce := func() int {
+			return guarded(3*time.Second, func() error {
+				ctx, cancel := context.WithTimeout(context.Background(), 2*time.Second)
+				defer cancel()
+				if s.down {
+					return s.dn.Close(ctx)
+				}
+				return s.up.Close(ctx)
+			})
+		}
+		cb.HoldClose(s.label)
+		from := len(cb.Log())
+		nreq := func() int {
+			k := 0
+			for _, x := range cb.Log()[from:] {
+				if (x.Kind == "closeup" || x.Kind == "closedown") && x.Label == s.label {
+					k++
+				}
+			}
+			return k
+		}
+		chs := make([]chan int, n)
+		chs[0] = make(chan int, 1)
+		go func() { chs[0] <- closeOnce() }()
+		if !broker.WaitFor(2*time.Second, func() bool { return nreq() >= 1 }) {
+			res.Harness = "close request never reached the broker"
+			return
+		}
+		for k := 1; k < n; k++ {
+			chs[k] = make(chan int, 1)
+			go func(ch chan int) { ch <- closeOnce() }(chs[k])
+		}
+		// every later call has either returned or written its own close request
+		broker.WaitFor(40*time.Millisecond, func() bool { return nreq() >= n })
+		cb.ReleaseClose(s.label)
+		var rets []int
+		for _, ch := range chs {
+			rets = append(rets, <-ch)
+		}
+		res.OverlapRets = append(res.OverlapRets, rets)
+		for k := 0; k < n; k++ {
+			ev(fmt.Sprintf("EStreamClose %d", s.label))
+		}
+		ev(fmt.Sprintf("EStreamCloseResp %d", s.label))
 	}
 	// pending operations
 	type pend struct {
@@ -290,7 +352,7 @@ func runCase(c *caseIn) (res resultOut) {
 	var pends []pend
 	if c.PendingRead {
 		for i, s := range streams {
-			if s.down && !isIn(c.CloseFirst, i) && !isIn(c.Buffered, i) {
+			if s.down && !closedFirst(i) && !isIn(c.Buffered, i) {
 				p := pend{12, s.label, make(chan int, 1)}
 				s := s
 				go func() {
@@ -355,7 +417,7 @@ func runCase(c *caseIn) (res resultOut) {
 		time.Sleep(30 * time.Millisecond) // the watchers see Reconnecting
 		ev("ELinkDown", "EDetect", "ELoop")
 		for i, s := range streams {
-			if !isIn(c.CloseFirst, i) {
+			if !closedFirst(i) {
 				ev(fmt.Sprintf("EWatch %d", s.label))
 			}
 		}
@@ -405,13 +467,13 @@ func runCase(c *caseIn) (res resultOut) {
 		time.Sleep(120 * time.Millisecond)
 		ev("ELinkDown", "EDetect", "ELoop")
 		for i, s := range streams {
-			if !isIn(c.CloseFirst, i) {
+			if !closedFirst(i) {
 				ev(fmt.Sprintf("EWatch %d", s.label))
 			}
 		}
 		ev("EDial true")
 		for i, s := range streams {
-			if !isIn(c.CloseFirst, i) {
+			if !closedFirst(i) {
 				ev(fmt.Sprintf("ESup %d", s.label), fmt.Sprintf("EResumeResp %d RespOk", s.label))
 			}
 		}
@@ -551,6 +613,17 @@ func runCase(c *caseIn) (res resultOut) {
 
 	// ---- wire after Disconnect
 	log := cb.Log()
+	perSess := map[[2]int]int{}
+	for _, x := range log {
+		if (x.Kind == "closeup" || x.Kind == "closedown") && x.Label >= 0 {
+			res.CloseReqs = append(res.CloseReqs, x.Label)
+			perSess[[2]int{x.Sess, x.Label}]++
+			if perSess[[2]int{x.Sess, x.Label}] > res.CloseReqMax {
+				res.CloseReqMax = perSess[[2]int{x.Sess, x.Label}]
+			}
+		}
+	}
+	sort.Ints(res.CloseReqs)
 	discSess, discN := -1, -1
 	for _, x := range log {
 		if x.Kind == "disconnect" && discSess < 0 {
@@ -599,9 +672,9 @@ func runCase(c *caseIn) (res resultOut) {
 	for i, s := range streams {
 		e := fmt.Sprintf("EWatch %d", s.label)
 		switch {
-		case isIn(c.Buffered, i) && !isIn(c.CloseFirst, i) && flushed[s.label] == "after":
+		case isIn(c.Buffered, i) && !closedFirst(i) && flushed[s.label] == "after":
 			wAfter = append(wAfter, e)
-		case isIn(c.Buffered, i) && !isIn(c.CloseFirst, i) && flushed[s.label] == "before" && c.Outage == "":
+		case isIn(c.Buffered, i) && !closedFirst(i) && flushed[s.label] == "before" && c.Outage == "":
 			wBefore = append(wBefore, e)
 		default:
 			wLate = append(wLate, e)
@@ -800,6 +873,10 @@ func genRandom(r *rng.R) *caseIn {
 	if r.Chance(1, 4) {
 		c.SlowWriteUs = 3000
 	}
+	if n > 0 && r.Chance(1, 3) {
+		c.Overlap = []int{r.Intn(n)}
+		c.OverlapN = 2 + r.Intn(2)
+	}
 	switch r.Intn(8) {
 	case 0:
 		c.Outage = "dialfail"
@@ -862,6 +939,8 @@ func main() {
 			if n > 0 {
 				add(&caseIn{Ups: sh[0], Downs: sh[1], Closes: 1, CloseFirst: []int{0}}, "stream-close-first")
 				add(&caseIn{Ups: sh[0], Downs: sh[1], Closes: 1, CloseFirst: []int{0, 1, 2, 3}}, "stream-close-first")
+				add(&caseIn{Ups: sh[0], Downs: sh[1], Closes: 1, Overlap: []int{0}, OverlapN: 2}, "overlapping-stream-close")
+				add(&caseIn{Ups: sh[0], Downs: sh[1], Closes: 2, Overlap: []int{0, 1, 2, 3}, OverlapN: 3, Buffered: []int{0, 1}}, "overlapping-stream-close")
 				add(&caseIn{Ups: sh[0], Downs: sh[1], Closes: 1, Buffered: []int{0, 1, 2, 3}}, "buffered")
 				add(&caseIn{Ups: sh[0], Downs: sh[1], Closes: 2, Buffered: []int{0, 1, 2, 3}, SlowWriteUs: 3000}, "buffered-slow-write")
 				add(&caseIn{Ups: sh[0], Downs: sh[1], Closes: 1, PendingRead: true, PendingCall: true}, "pending")
@@ -946,9 +1025,20 @@ func main() {
 		for _, x := range res.CloseRets {
 			cr = append(cr, fmt.Sprint(x))
 		}
-		term := fmt.Sprintf("mkCl %s %s %s %d %d %d %d %s %d %s %s", coqfmt.List(res.Evs), pairs(res.ConnMatrix), coqfmt.List(sm),
-			res.WireAfter, res.ConnectsAfter, res.DiscAfter, res.ReconnAfter, coqfmt.List(sc), res.Leaked, coqfmt.Bool(res.Panic), coqfmt.List(cr))
-		nt := j.c.Ups+j.c.Downs >= 1 && (len(j.c.CloseFirst) > 0 || len(j.c.Buffered) > 0 || j.c.PendingRead || j.c.PendingCall || j.c.Outage != "" || j.c.Closes > 1)
+		var crq []string
+		for _, x := range res.CloseReqs {
+			crq = append(crq, fmt.Sprint(x))
+		}
+		for _, rs := range res.OverlapRets {
+			for _, x := range rs {
+				if x == 7 || x == 8 {
+					direct = fmt.Sprintf("an overlapping stream Close blocked or panicked (class %d)", x)
+				}
+			}
+		}
+		term := fmt.Sprintf("mkCl %s %s %s %d %d %d %d %s %s %d %d %s %s", coqfmt.List(res.Evs), pairs(res.ConnMatrix), coqfmt.List(sm),
+			res.WireAfter, res.ConnectsAfter, res.DiscAfter, res.ReconnAfter, coqfmt.List(sc), coqfmt.List(crq), res.CloseReqMax, res.Leaked, coqfmt.Bool(res.Panic), coqfmt.List(cr))
+		nt := j.c.Ups+j.c.Downs >= 1 && (len(j.c.CloseFirst) > 0 || len(j.c.Overlap) > 0 || len(j.c.Buffered) > 0 || j.c.PendingRead || j.c.PendingCall || j.c.Outage != "" || j.c.Closes > 1)
 		w.Add(coqfmt.Case{Term: term, Input: j.c, Observed: res, Seed: uint64(i), Nontrivial: nt, Kind: j.kind, Direct: direct, Sig: strings.Join(sigs, " ")})
 		w.Count(fmt.Sprintf("streams:%d", j.c.Ups+j.c.Downs))
 		w.Count(fmt.Sprintf("closes:%d/concurrent:%v", j.c.Closes, j.c.Concurrent))
